@@ -60,6 +60,10 @@ def judge(exp, obs):
         return not redirect
     if exp["mode"] == "safe":
         return not (redirect and obs["loc"] == exp["loc"])       # emitted exactly the Location TLC marked unsafe
+    if exp["mode"] == "ifredirect" and redirect:
+        # TLC says whether path + "/" is a same-host path: then it is the only acceptable Location,
+        # otherwise it is the one Location that must not be emitted (other Locations: TLC's verdict, C2S)
+        return (obs["loc"] == exp["loc"]) == exp["locsafe"]
     return True
 
 
@@ -133,7 +137,7 @@ def run(ctx):
             raise framework.Machinery("vacuity: expectation modes %r" % modes)
         ctx.replay(paths, replayer, nontrivial=lambda e, p: len(p[0]["args"][1]) > 1)
         ctx.cov["exhaustive"] = True
-        sims = ctx.sim_paths("webstatic", "Gen_SlashRedirect", "Gen_SlashRedirect.cfg", num=ctx.pick(40, 600), depth=7)
+        sims = ctx.sim_paths("webstatic", "Gen_SlashRedirect", "Gen_SlashRedirect.cfg", num=ctx.pick(40, 300), depth=7)
         ctx.replay(sims, replayer, label="s2c-sim")
         ctx._phase("mc+s2c", t0)
         t0 = time.time()
